@@ -62,7 +62,7 @@ from vgi_rpc.rpc import AuthContext
 
 PROPERTY = "C21"
 LEVEL = "exploration"
-QUICK_RUNS = 2500
+QUICK_RUNS = 1200
 THOROUGH_RUNS = 250_000
 QUICK_BUDGET_S = 90
 THOROUGH_BUDGET_S = 1500
@@ -373,8 +373,8 @@ def intermediary_body(ch: Any, label: str) -> tuple[str, bytes, str | None]:
         ("binary", bytes(range(256)) * 2, None),
         ("invalid-utf8", b"\xff\xfe\xfd denied \xc3\x28", None),
         ("empty", b"", None),
-        ("huge-text", b"Access denied. " * 70_000, None),
-        ("huge-envelope", envelope(r, detail="x" * 1_000_000), r),
+        ("huge-text", b"Access denied. " * 20_000, None),
+        ("huge-envelope", envelope(r, detail="x" * 300_000), r),
         ("utf16-json", json.dumps({"error": "unauthorized", "reason": r, "detail": "d"}).encode("utf-16"), None),
         ("deep-array", b"[" * 100_000, None),
         ("deep-object", b'{"reason":' * 50_000 + b'"x"' + b"}" * 50_000, None),
